@@ -13,7 +13,13 @@ TEXT = {
                 "in the range is either revoked or was accepted by verifyEntry under a policy state and an attestation state that were "
                 "in force during the walk (relLoop_sound_gen, C01_relative_sound, C01_full_sound) - unconditionally for the repaired "
                 "F2/F3 behaviour, and for the code as it stands under the explicit side conditions 'no propagation entry for a branch in "
-                "range' and 'nothing revoked in range'; and verifyEntry's acceptance means what the property says for the Git rule: a consulted "
+                "range' and 'nothing revoked in range'; the states are EXACTLY the ones immediately preceding the entry (relLoop_exact_gen, "
+                "C01_relative_exact, C01_full_exact: induction over the loop with the invariant 'the state held is the one recorded last "
+                "before the head of the queue; the queue holds every later policy / attestation entry'): each entry was accepted under the "
+                "policy and attestation state recorded last before it (the states loaded for the first entry if none is in range), or is "
+                "revoked, or is the fix of a revoked entry (verified under the states in force at that entry; unverified with F3), or is a "
+                "propagation entry (F2); inside the range that state is the declarative policyBefore / attBefore of Spec/C01 "
+                "(polInForce_eq_policyBefore, attInForce_eq_attBefore), so later or earlier states never legitimize an entry; and verifyEntry's acceptance means what the property says for the Git rule: a consulted "
                 "rule is met by >= threshold distinct principals of its own, injectively credited through valid signatures over this entry / "
                 "this authorization or matched to code-review approvers (go_accept_rule_met, verifyObject_accept, C01_entry_accept), which "
                 "implies the declarative per-entry authorization of Spec/C01 - the principals contributed to EXACTLY this change "
@@ -23,8 +29,9 @@ TEXT = {
                 "code accepts what the declarative property (c01Sound) forbids, and the repaired variants reject. The declarative "
                 "property is evaluated by the driver on the verdict the REAL verifier returns for every generated history; the model "
                 "(open defects as explicit Variant flags) must reproduce every verdict and tip of the real code.",
-        "note": TB + "Not yet theorems: the same declarative link for file rules and for policies with global rules, and that the states 'in force "
-                "during the walk' are exactly the ones immediately preceding each entry (C01_sound_statement stays a statement for that reason). "
+        "note": TB + "Not yet theorems: the same declarative link for file rules and for policies with global rules, and that the state LoadState "
+                "returns for the first entry of the range is the one recorded by the policy entry it was asked for (the chain walk of LoadState "
+                "is covered by C02's theorems and by the correspondence). "
                 "F1 (fixed in /repo, 00d1364) and F4 (fixed, 8a14108) stay in the corpus as regression witnesses; F2, F3 are open findings reproduced on every run.",
         "technique": "Lean 4 proof (loop invariant by induction on fuel, queue-partition lemma for recovery) + differential correspondence with spec evaluated on the implementation",
     },
